@@ -592,17 +592,17 @@ Proof.
 Qed.
 
 (* The main statement, for any registry and any set of classes that pass the computable test. *)
-Theorem registry_sound : forall reg cs,
-  registry_ok reg cs = true ->
+Theorem registry_sound : forall ex reg cs,
+  registry_ok ex reg cs = true ->
   forall c, In c cs ->
-  forall op s, dyn_getitem reg c op = Some s -> s_deprecated s = false ->
+  forall op s, dyn_getitem reg c op = Some s -> ex s = false ->
     (covered c = true -> exists m, static_lookup cs c op = Some m) /\
     forall m, static_lookup cs c op = Some m ->
       static_schema reg m = Some s /\ mirrors m s /\
       forall V (a : args V) pe ke, bind m a = Some (pe, ke) ->
         exists n, call_method reg m a = Some n /\ n_inputs n = strip (a_pos a) /\ node_equiv s n (bare_node s a).
 Proof.
-  intros reg cs OK c I op s R D.
+  intros ex reg cs OK c I op s R D.
   unfold registry_ok in OK. apply andb_true_iff in OK as [_ OK].
   rewrite forallb_forall in OK. specialize (OK c I). unfold class_ok in OK.
   unfold static_lookup. destruct (all_methods cs c) as [ms|]; [|discriminate].
@@ -624,17 +624,17 @@ Proof.
 Qed.
 
 (* Opset.__getitem__ / __contains__ / __getattr__ against the static class *)
-Theorem dynamic_lookup_agrees : forall reg cs,
-  registry_ok reg cs = true ->
+Theorem dynamic_lookup_agrees : forall ex reg cs,
+  registry_ok ex reg cs = true ->
   forall c, In c cs -> forall op,
     (dyn_contains reg c op = true <-> exists s, dyn_getitem reg c op = Some s) /\
-    (forall s, dyn_getitem reg c op = Some s -> s_deprecated s = false -> getattr_schema reg cs c op = Some s) /\
+    (forall s, dyn_getitem reg c op = Some s -> ex s = false -> getattr_schema reg cs c op = Some s) /\
     (dyn_getitem reg c op = None -> getattr_schema reg cs c op = None /\ static_lookup cs c op = None).
 Proof.
-  intros reg cs OK c I op. split; [|split].
+  intros ex reg cs OK c I op. split; [|split].
   - unfold dyn_contains. destruct (dyn_getitem reg c op); split; eauto; try discriminate. intros [s H]; discriminate.
   - intros s R D. unfold getattr_schema.
-    destruct (registry_sound _ _ OK _ I _ _ R D) as [_ H].
+    destruct (registry_sound _ _ _ OK _ I _ _ R D) as [_ H].
     destruct (static_lookup cs c op) as [m|] eqn:L; auto. apply (H m eq_refl).
   - intro R. unfold getattr_schema.
     unfold registry_ok in OK. apply andb_true_iff in OK as [_ OK].
@@ -682,7 +682,7 @@ Definition ex_classes : list cls := [
   mkC "Opset11" (Some "Opset10") "" 11 [ex_clip11]
 ].
 
-Example ex_registry_ok : registry_ok ex_reg ex_classes = true.
+Example ex_registry_ok : registry_ok s_deprecated ex_reg ex_classes = true.
 Proof. vm_compute. reflexivity. Qed.
 
 (* hypotheses of registry_sound / call_sound are satisfiable on a call that omits an optional input in
@@ -698,7 +698,7 @@ Proof. vm_compute. repeat split. Qed.
    `opset10.Upsample` (eager: Upsample-9 under opset 9) and `opset10["Upsample"]` (translation: the
    deprecated Upsample-10) denote different schemas although every live operator checks out. *)
 Lemma deprecated_gap : exists reg cs c op m s,
-  registry_ok reg cs = true /\ In c cs /\
+  registry_ok s_deprecated reg cs = true /\ In c cs /\
   static_lookup cs c op = Some m /\ dyn_getitem reg c op = Some s /\
   s_deprecated s = true /\ static_schema reg m <> Some s.
 Proof.
@@ -706,6 +706,63 @@ Proof.
   eexists. split; [exact ex_registry_ok|]. split; [cbn; auto|].
   split; [vm_compute; reflexivity|]. split; [vm_compute; reflexivity|]. split; [reflexivity|].
   vm_compute. discriminate.
+Qed.
+
+(* ------------------------------------------------------------------ exemptions and the repaired classes *)
+
+Lemma exempt_in_nil : forall s, exempt_in [] s = false.
+Proof. intro s. unfold exempt_in. cbn. apply andb_false_r. Qed.
+
+Lemma exempt_in_live : forall l s, s_deprecated s = false -> exempt_in l s = false.
+Proof. intros l s D. unfold exempt_in. rewrite D. reflexivity. Qed.
+
+(* With no exemption at all the statement covers every operator onnx.defs resolves, deprecated or not:
+   in particular opsetN.Op denotes the same schema through the static class (eager) and through
+   Opset.__getitem__ (translation). *)
+Theorem registry_sound_fixed : forall reg cs,
+  registry_ok no_exemption reg cs = true ->
+  forall c, In c cs ->
+  forall op s, dyn_getitem reg c op = Some s ->
+    getattr_schema reg cs c op = Some s /\
+    (covered c = true -> exists m, static_lookup cs c op = Some m) /\
+    forall m, static_lookup cs c op = Some m ->
+      static_schema reg m = Some s /\ mirrors m s /\
+      forall V (a : args V) pe ke, bind m a = Some (pe, ke) ->
+        exists n, call_method reg m a = Some n /\ n_inputs n = strip (a_pos a) /\ node_equiv s n (bare_node s a).
+Proof.
+  intros reg cs OK c I op s R.
+  split; [|exact (registry_sound _ _ _ OK c I op s R eq_refl)].
+  destruct (dynamic_lookup_agrees _ _ _ OK c I op) as [_ [H _]]. apply H; auto.
+Qed.
+
+(* the repaired shape of the example: Opset10 overrides Upsample with a method generated from the
+   deprecation record, so the version-9 method is not inherited past version 10 *)
+Definition ex_upsample10 : method :=
+  mkM "Upsample" [mkP "X" PReq DNone; mkP "scales" PReq DNone; mkP "mode" PKw (DStr "nearest")]
+      "Upsample" 10 "" "Upsample" (Some [("X", false); ("scales", false)]) [("mode", "mode")].
+Definition ex_classes_fixed : list cls := [
+  mkC "Opset9" None "" 9 [ex_upsample9; ex_clip6];
+  mkC "Opset10" (Some "Opset9") "" 10 [ex_upsample10];
+  mkC "Opset11" (Some "Opset10") "" 11 [ex_clip11]
+].
+
+Example ex_registry_fixed_ok : registry_ok no_exemption ex_reg ex_classes_fixed = true.
+Proof. vm_compute. reflexivity. Qed.
+
+(* the as-read classes do not pass the test without the exemption, and pass it with exactly Upsample listed *)
+Example ex_registry_as_read_strict : registry_ok no_exemption ex_reg ex_classes = false /\
+                                     registry_ok (exempt_in [("", "Upsample")]) ex_reg ex_classes = true /\
+                                     deprecated_inherited ex_reg ex_classes =
+                                       [("Opset10", "Upsample", 9%Z, 10%Z); ("Opset11", "Upsample", 9%Z, 10%Z)] /\
+                                     deprecated_inherited ex_reg ex_classes_fixed = [].
+Proof. vm_compute. repeat split. Qed.
+
+Lemma deprecated_fixed : exists c op m s,
+  In c ex_classes_fixed /\ static_lookup ex_classes_fixed c op = Some m /\ dyn_getitem ex_reg c op = Some s /\
+  s_deprecated s = true /\ static_schema ex_reg m = Some s /\ getattr_schema ex_reg ex_classes_fixed c op = Some s.
+Proof.
+  exists (mkC "Opset11" (Some "Opset10") "" 11 [ex_clip11]), "Upsample", ex_upsample10. eexists.
+  split; [cbn; auto|]. repeat split; vm_compute; reflexivity.
 Qed.
 
 (* A wrong default is caught by the test, and is a real difference between the call and the bare node *)
